@@ -76,6 +76,7 @@ var families = []struct {
 	{"bytes", genBytes},
 	{"ulimits", genUlimits},
 	{"command", genCommands},
+	{"context", genContext},
 	{"reject", genRejects},
 }
 
